@@ -12,6 +12,7 @@ import Driver.C05
 import Driver.C07
 import Driver.Provider
 import Driver.C12
+import Driver.C14
 open Lean Driver
 
 def handlers : List (String × Handler) := [
@@ -29,6 +30,7 @@ def handlers : List (String × Handler) := [
   ("C06", Driver.Provider.handle),
   ("C09", Driver.Provider.handle),
   ("C12", Driver.C12.handle),
+  ("C14", Driver.C14.handle),
   ("C19", fun j => match getStr j "world" with
     | .ok "oauth1" => Driver.C12.handle j
     | _ => Driver.Provider.handle j)
